@@ -180,6 +180,7 @@ func (fl *FileList) ReadUserFileList(cursor fs.LineReader) error {
 		}
 		adding, entry, ok := parseLine(line, cursor)
 		if ok {
+			entry = unescapeAsterisks(entry)
 			var err error
 			if adding {
 				err = fl.addFiles(entry)
@@ -192,6 +193,20 @@ func (fl *FileList) ReadUserFileList(cursor fs.LineReader) error {
 		}
 	}
 	return cursor.Err()
+}
+
+
+// parseFields keeps the backslash of an escaped asterisk so that parseSource and
+// filepath.Glob can tell it from a wildcard; names that are not globbed must lose it
+func unescapeAsterisks(entry lineInfo) lineInfo {
+	entry.target = strings.ReplaceAll(entry.target, "\\*", "*")
+	if !entry.hasWildcard {
+		entry.name = strings.ReplaceAll(entry.name, "\\*", "*")
+		entry.source = strings.ReplaceAll(entry.source, "\\*", "*")
+	} else if len(entry.source) > 0 {
+		entry.name = strings.ReplaceAll(entry.name, "\\*", "*")
+	}
+	return entry
 }
 
 
